@@ -14,16 +14,18 @@ import AldorVerif.Lemmas.Peep
 * the level table regenerated from `optfoam.c` is monotone (`optlevel_monotone`) and the set of
   switches is the one the end-to-end search enumerates (`opt_switch_names_complete`).
 
-Constant folding (`of_cfold.c`) belongs to C04: when `AldorVerif.Gen.Cfold` (the regenerated
-per-builtin folding functions) and its theorems `fold_op = spec_op` are present, the statement
-to add here is
+Constant folding (`of_cfold.c`) belongs to C04: `AldorVerif.Gen.Cfold` (regenerated per-builtin folding
+functions over `CSem`/`Prims`, results in `CRes`) and `Props/C04Gen*.lean` (`cfold_X_spec : Spec.X a… = some r →
+Gen.Cfold.X P a… = CRes.val r`, `cfold_X_notrap`) exist.  The corollary for this fragment,
 
     def cfold_preserves_statement : Prop :=
-      ∀ F st e, WT e → evalE F (cfold e) st = evalE F e st
+      ∀ P F st e, WT e → evalE F (cfold P e) st = evalE F e st
 
-with `cfold : Expr → Expr` rewriting `b1 op (sint c)` / `b2 op (sint c) (sint d)` by the
-regenerated functions; it follows operator by operator from the C04 theorems because `sem1` /
-`sem2` above are the specification functions (wrap-around `BitVec 64`).  The passes that are
+with `cfold P : Expr → Expr` rewriting `b1 op (const)` / `b2 op (const) (const)` through `Gen.Cfold.X P`, needs
+one bridging lemma per builtin (`Spec.X a b = some (sem2 op a b)`, Bool operands as `Bool`, Char as `BitVec 8`)
+for the 22 builtins of `Op1`/`Op2`, plus the excluded points (division is not in the fragment); it is not
+stated here yet - the operator-level content is exactly the C04 theorems, `sem1`/`sem2` above being the
+wrap-around `BitVec 64` specification.  The passes that are
 neither `peep` nor `cfold` (inline, cprop, cse, emerge, env, flow, deadvar, dassign, hfold, cast,
 emerge-rr, killp, argsub) are not modelled; they are covered by the end-to-end search
 (checks/parts/optsearch.py) only.
